@@ -11,81 +11,94 @@ import Proofs.RetrieveAdmit
   the top of the longest prefix of the chain whose parts are all on the DA layer, holding the proposer's blocks.
 -/
 namespace FullNode
-open Wire Chain Sync Retrieve
+open Wire Chain Sync Retrieve Submit
 
-variable {C : Cfg} {ch : PChain} {top h0 : Nat} {evs : List Ev} {lv : Bool}
+variable {C : Cfg} {ch : PChain} {top h0 : Nat} {evs : List Ev} {lv gr : Bool}
 
 theorem eraseStore_empty : eraseStore ({} : Store) = {} := rfl
 
 /-- the invariant holds after the first start on an empty store, with nothing on the DA layer -/
 theorem hinit_inv (g : GoodChain C.sync ch top) :
-    HInv lv C ch (C.sync.initialHeight - 1) [] (hinit C) ∧ (hinit C).nd.cursor = C.daStart := by
+    HInv lv gr C ch (C.sync.initialHeight - 1) [] (hinit C) ∧ (hinit C).nd.cursor = C.daStart := by
   have hd : DiskOK C.sync ch (eraseStore ({} : Store)) := by rw [eraseStore_empty]; exact diskOK_empty g
   have hda : DAok C.daStart ({} : Store) := fun st h => by cases h
-  obtain ⟨nd, ws, n, a1, a2, a3, a4, a5, a6, a7⟩ := start_step g hd hda {}
+  obtain ⟨nd, ws, n, a1, a2, a3, a4, a5, a6, a8, a9, a7⟩ := start_step g hd hda {}
   obtain ⟨n', ws', d1, d2, d3, d4⟩ := diskOK_start g hd
   rw [a2] at d1
   simp only [Option.some.injEq, Prod.mk.injEq] at d1
   obtain ⟨rfl, rfl⟩ := d1
   have hr : recHeight C.sync (eraseStore ({} : Store)) = C.sync.initialHeight - 1 := rfl
   have hh : nd.full.store.height = C.sync.initialHeight - 1 := by rw [← hr, ← d2, ← a3]; rfl
+  have hm0 : metaInc ({} : Store) = 0 := rfl
+  have hinc : daIncOf C nd.full.store = C.sync.initialHeight - 1 := by
+    rw [daIncOf_eq, a9, hm0]; split <;> omega
   unfold hinit
   rw [a1]
-  simp only [started]
-  refine ⟨⟨rfl, by rw [a3]; rw [d2] at d4; exact d4.safe, by rw [a3]; exact fun _ => ⟨d4.live, d4.quiet⟩, a4, a6, by rw [a5]; exact Nat.le_refl _,
+  simp only [started, Bool.false_eq_true, ↓reduceIte]
+  refine ⟨⟨rfl, by rw [a3]; rw [d2] at d4; exact d4.safe, by rw [a3]; exact fun _ => ⟨d4.live, d4.quiet⟩, a4, a6,
+    by rw [a5]; exact Nat.le_refl _,
     ⟨fun p hp => by simp [DAView.placed] at hp, fun p hp => by simp [DAView.placed] at hp⟩,
-    fun e he => by simp at he, ?_, ?_⟩, a5⟩
-  · intro k h1 h2
+    fun _ e he => by simp at he, ?_, a8, fun m hm => by simp at hm, fun m hm => by simp at hm,
+    by rw [hinc, hh]; exact Nat.le_refl _, by rw [hinc]; exact Nat.le_refl _, metaInc_le_daIncOf C _, ?_, ?_⟩, a5⟩
+  · intro _ k h1 h2
     have := g.ihPos
     have h3 : k ≤ nd.full.store.height := h2
     omega
+  · intro k h1 h2
+    have h3 : k ≤ daIncOf C nd.full.store := h2
+    have := g.ihPos
+    omega
   · intro j
-    obtain ⟨b1, b2, b3⟩ := a7 j
-    exact ⟨b1, by rw [b2, hh]; exact Nat.le_refl _, b3⟩
+    obtain ⟨b1, b2, b3, b4⟩ := a7 j
+    refine ⟨b1, by rw [b2, hh]; exact Nat.le_refl _, b3, ?_, ?_⟩
+    · rw [b4, hm0]; exact Nat.zero_le _
+    · rw [b4, hm0]; exact Nat.zero_le _
 
 /-- **the invariant holds after every history** whose placed blobs are, when accepted, parts of the chain -/
 theorem hrun_inv (g : GoodChain C.sync ch top) (dc : lv = true → DistinctCommitments ch) (ops : List HOp)
-    (hops : ∀ op ∈ ops, OpOK C ch op) : ∃ h0 evs, HInv lv C ch h0 evs (hrun C ops) := by
+    (hops : ∀ op ∈ ops, OpOK C ch op) (hgr : gr = true → ∀ op ∈ ops, isP2P op = false) :
+    ∃ h0 evs, HInv lv gr C ch h0 evs (hrun C ops) := by
   unfold hrun
-  have h0 : ∃ h0 evs, HInv lv C ch h0 evs (hinit C) := ⟨_, _, (hinit_inv g).1⟩
+  have h0 : ∃ h0 evs, HInv lv gr C ch h0 evs (hinit C) := ⟨_, _, (hinit_inv g).1⟩
   generalize hinit C = s at h0
   induction ops generalizing s with
   | nil => exact h0
   | cons op rest ih =>
     obtain ⟨a, b, hi⟩ := h0
     simp only [List.foldl_cons]
-    exact ih (fun o ho => hops o (List.mem_cons_of_mem _ ho)) _ (hstep_inv g dc hi op (hops op List.mem_cons_self))
+    exact ih (fun o ho => hops o (List.mem_cons_of_mem _ ho)) (fun hg o ho => hgr hg o (List.mem_cons_of_mem _ ho)) _
+      (hstep_inv g dc hi op (hops op List.mem_cons_self) (fun hg => hgr hg op List.mem_cons_self))
 
 /-- **a clean restart resumes the DA scan at the configured DA start height** -/
-theorem restart_cursor (g : GoodChain C.sync ch top) {s : HSt} (hi : HInv lv C ch h0 evs s) :
+theorem restart_cursor (g : GoodChain C.sync ch top) {s : HSt} (hi : HInv lv gr C ch h0 evs s) :
     (hstep C s .restart).ok = true ∧ (hstep C s .restart).nd.cursor = C.daStart := by
   have hnok : (!s.ok) = false := by rw [hi.ok]; rfl
   obtain ⟨hd, _⟩ := hi.safe.diskOK g
-  obtain ⟨nd, ws, n, a1, _, _, _, a5, _, _⟩ := start_step g (d := s.nd.full.store) hd hi.disk s.nd.full
+  obtain ⟨nd, ws, n, a1, _, _, _, a5, _⟩ := start_step g (d := s.nd.full.store) hd hi.disk s.nd.full
   simp only [hstep, hnok, Bool.false_eq_true, ↓reduceIte]
   unfold restartClean
   rw [a1]
   exact ⟨rfl, a5⟩
 
 /-- **a restart after a crash at any write boundary resumes the DA scan at the configured DA start height** -/
-theorem crash_cursor (g : GoodChain C.sync ch top) {s : HSt} (hi : HInv lv C ch h0 evs s) (k : Nat) :
+theorem crash_cursor (g : GoodChain C.sync ch top) {s : HSt} (hi : HInv lv gr C ch h0 evs s) (k : Nat) :
     (hstep C s (.crash k)).ok = true ∧ (hstep C s (.crash k)).nd.cursor = C.daStart := by
   have hnok : (!s.ok) = false := by rw [hi.ok]; rfl
-  obtain ⟨c1, _, c3⟩ := hi.crash k
-  obtain ⟨nd, ws, n, a1, _, _, _, a5, _, _⟩ := start_step g c1 c3 {}
+  obtain ⟨c1, _, c3, _⟩ := hi.crash k
+  obtain ⟨nd, ws, n, a1, _, _, _, a5, _⟩ := start_step g c1 c3 {}
   simp only [hstep, hnok, Bool.false_eq_true, ↓reduceIte]
   unfold restartCrash
   rw [a1]
   exact ⟨rfl, a5⟩
 
 /-- a clean restart keeps the chain height -/
-theorem restart_height (g : GoodChain C.sync ch top) {s : HSt} (hi : HInv lv C ch h0 evs s) :
+theorem restart_height (g : GoodChain C.sync ch top) {s : HSt} (hi : HInv lv gr C ch h0 evs s) :
     (hstep C s .restart).nd.full.store.height = s.nd.full.store.height := by
   have hnok : (!s.ok) = false := by rw [hi.ok]; rfl
   obtain ⟨hd, _⟩ := hi.safe.diskOK g
   obtain ⟨nd, ws, n, a1, a2, a3, _⟩ := start_step g (d := s.nd.full.store) hd hi.disk s.nd.full
-  have hres : restart C.sync (eraseN s.nd.full) = n := by
-    unfold restart
+  have hres : Sync.restart C.sync (eraseN s.nd.full) = n := by
+    unfold Sync.restart
     rw [start_caches_erase]
     show (match Sync.start C.sync (eraseStore s.nd.full.store) s.nd.full with | some (n', _) => n' | none => _) = n
     rw [a2]
@@ -97,11 +110,11 @@ theorem restart_height (g : GoodChain C.sync ch top) {s : HSt} (hi : HInv lv C c
   exact this
 
 /-- after a crash the node restarts at the height the image records: never above the height it had reached -/
-theorem crash_height (g : GoodChain C.sync ch top) {s : HSt} (hi : HInv lv C ch h0 evs s) (k : Nat) :
+theorem crash_height (g : GoodChain C.sync ch top) {s : HSt} (hi : HInv lv gr C ch h0 evs s) (k : Nat) :
     (hstep C s (.crash k)).nd.full.store.height = recHeight C.sync (eraseStore (s.before.applyPrefix k s.ws)) ∧
     (hstep C s (.crash k)).nd.full.store.height ≤ s.nd.full.store.height := by
   have hnok : (!s.ok) = false := by rw [hi.ok]; rfl
-  obtain ⟨c1, c2, c3⟩ := hi.crash k
+  obtain ⟨c1, c2, c3, _⟩ := hi.crash k
   obtain ⟨nd, ws, n, a1, a2, a3, _⟩ := start_step g c1 c3 {}
   obtain ⟨n', ws', d1, d2, _⟩ := diskOK_start g c1
   rw [a2] at d1
@@ -113,6 +126,49 @@ theorem crash_height (g : GoodChain C.sync ch top) {s : HSt} (hi : HInv lv C ch 
   unfold restartCrash
   rw [a1]
   exact ⟨hh, by show nd.full.store.height ≤ _; omega⟩
+
+/-- the DA-included height a restarted node reports is never above the one it reported before (it is the persisted
+value, raised to `initialHeight - 1`) and never above its chain height -/
+theorem restart_daInc (g : GoodChain C.sync ch top) {s : HSt} (hi : HInv lv gr C ch h0 evs s) :
+    (hstep C s .restart).daInc ≤ s.daInc ∧ (hstep C s .restart).daInc ≤ (hstep C s .restart).nd.full.store.height ∧
+    (hstep C s .restart).hMarks = s.hMarks ∧ (hstep C s .restart).dMarks = s.dMarks := by
+  have hnok : (!s.ok) = false := by rw [hi.ok]; rfl
+  obtain ⟨h1, e1, hi1⟩ := hstep_inv g (lv := false) (fun h => by cases h)
+    (show HInv false gr C ch h0 evs s from { hi with live := fun h => by cases h }) .restart trivial (fun _ => rfl)
+  obtain ⟨hd, _⟩ := hi.safe.diskOK g
+  obtain ⟨nd, ws, n, a1, _, _, _, _, _, _, a9, _⟩ := start_step g (d := s.nd.full.store) hd hi.disk s.nd.full
+  refine ⟨?_, hi1.incLe, ?_, ?_⟩
+  · simp only [hstep, hnok, Bool.false_eq_true, ↓reduceIte]
+    unfold restartClean
+    rw [a1]
+    exact daIncOf_le (by rw [a9]; exact hi.incMeta) hi.incGe
+  · simp only [hstep, hnok, Bool.false_eq_true, ↓reduceIte]
+    unfold restartClean
+    rw [a1]; rfl
+  · simp only [hstep, hnok, Bool.false_eq_true, ↓reduceIte]
+    unfold restartClean
+    rw [a1]; rfl
+
+theorem crash_daInc (g : GoodChain C.sync ch top) {s : HSt} (hi : HInv lv gr C ch h0 evs s) (k : Nat) :
+    (hstep C s (.crash k)).daInc ≤ s.daInc ∧
+    (hstep C s (.crash k)).daInc ≤ (hstep C s (.crash k)).nd.full.store.height ∧
+    (hstep C s (.crash k)).hMarks = [] ∧ (hstep C s (.crash k)).dMarks = [] := by
+  have hnok : (!s.ok) = false := by rw [hi.ok]; rfl
+  obtain ⟨h1, e1, hi1⟩ := hstep_inv g (lv := false) (fun h => by cases h)
+    (show HInv false gr C ch h0 evs s from { hi with live := fun h => by cases h }) (.crash k) trivial (fun _ => rfl)
+  obtain ⟨c1, _, c3, c4, _⟩ := hi.crash k
+  obtain ⟨nd, ws, n, a1, _, _, _, _, _, _, a9, _⟩ := start_step g c1 c3 {}
+  refine ⟨?_, hi1.incLe, ?_, ?_⟩
+  · simp only [hstep, hnok, Bool.false_eq_true, ↓reduceIte]
+    unfold restartCrash
+    rw [a1]
+    exact daIncOf_le (by rw [a9]; exact c4) hi.incGe
+  · simp only [hstep, hnok, Bool.false_eq_true, ↓reduceIte]
+    unfold restartCrash
+    rw [a1]; rfl
+  · simp only [hstep, hnok, Bool.false_eq_true, ↓reduceIte]
+    unfold restartCrash
+    rw [a1]; rfl
 
 /-- the DA cursor a (re)started node begins with, as `NewManager` computes it: the larger of the persisted state's
 DA height and the configured DA start height -/
@@ -142,20 +198,42 @@ theorem accepted_data_nonempty {o : Oracle} {p bs : Bytes} {sd : SignedData}
 
 /-- the state `hstep … .run` reaches, spelled out -/
 theorem hstep_run_eq {s : HSt} (hok : s.ok = true) :
-    hstep C s .run =
+    hstep C s .run = includeSt
       { s with nd := { full := (feed C s.nd.full (scanOf C s.nd s.v).2.2.1).1, cursor := (scanOf C s.nd s.v).1.daHeight },
                v := (scanOf C s.nd s.v).2.1, before := s.nd.full.store,
-               ws := (feed C s.nd.full (scanOf C s.nd s.v).2.2.1).2 } := by
+               ws := (feed C s.nd.full (scanOf C s.nd s.v).2.2.1).2,
+               hMarks := (marksOf C s.nd s.v).1 ++ s.hMarks, dMarks := (marksOf C s.nd s.v).2 ++ s.dMarks } := by
   have hnok : (!s.ok) = false := by rw [hok]; rfl
   simp only [hstep, hnok, Bool.false_eq_true, ↓reduceIte]
   rfl
+
+/-- the includer leaves everything but the metadata and its own counters alone -/
+theorem includeSt_frame (s : HSt) :
+    (includeSt s).nd.cursor = s.nd.cursor ∧ (includeSt s).v = s.v ∧
+    (includeSt s).nd.full.store.height = s.nd.full.store.height ∧
+    (includeSt s).nd.full.store.blocks = s.nd.full.store.blocks ∧
+    (includeSt s).nd.full.lastState = s.nd.full.lastState ∧ (includeSt s).nd.full.alive = s.nd.full.alive ∧
+    (includeSt s).hMarks = s.hMarks ∧ (includeSt s).dMarks = s.dMarks := by
+  have hp : PassInv (toA s.nd.full.store s.hMarks s.dMarks s.daInc s.finals)
+      (includerIter (toA s.nd.full.store s.hMarks s.dMarks s.daInc s.finals)).1
+      (includerIter (toA s.nd.full.store s.hMarks s.dMarks s.daInc s.finals)).2 :=
+    includerPass_inv _ _ _ [] (PassInv.init _)
+  exact ⟨rfl, rfl, hp.frame.height, hp.frame.blocks, rfl, rfl, rfl, rfl⟩
+
+/-- a run leaves the contents of the DA layer alone -/
+theorem hstep_run_placed (C : Cfg) (s : HSt) : (hstep C s .run).v.placed = s.v.placed := by
+  cases hok : s.ok with
+  | false => simp [hstep, hok]
+  | true =>
+    rw [hstep_run_eq hok, (includeSt_frame _).2.1]
+    exact (scan_view C.sync.proposerAddr (scanFuel s.nd.cursor s.v.top) (rnodeOf s.nd) s.v [] []).1
 
 /-- **convergence of one run**: the scan starts at the DA start height, no fetch is answered "not found", and the
 scan reaches the head of the DA layer.  Then the node is alive, its state is the state after its height `H`, every
 block up to `H` has both parts on the DA layer and is stored as the proposer's block, and block `H + 1` is NOT
 completely on the DA layer: `H` is the top of the longest complete prefix of the chain on the DA layer. -/
 theorem run_converges (g : GoodChain C.sync ch top) (dc : DistinctCommitments ch) {s : HSt}
-    (hi : HInv true C ch h0 evs s) (hcur : s.nd.cursor = C.daStart)
+    (hi : HInv true true C ch h0 evs s) (hcur : s.nd.cursor = C.daStart)
     (hnf : ∀ a, Fetch.notFound ∉ s.v.scriptAt a)
     (hreach : s.v.top ≤ (hstep C s .run).nd.cursor) :
     (hstep C s .run).nd.full.alive = true ∧
@@ -166,7 +244,22 @@ theorem run_converges (g : GoodChain C.sync ch top) (dc : DistinctCommitments ch
     ¬ OnDA C ch s.v ((hstep C s .run).nd.full.store.height + 1) := by
   have hs' := scan_step g (fun _ => dc) hi (scanOf C s.nd s.v).2.2.1 (fun e he => he)
   rw [hstep_run_eq hi.ok] at hreach ⊢
+  obtain ⟨f1, _, f3, f4, f5, f6, _, _⟩ := includeSt_frame
+    { s with nd := { full := (feed C s.nd.full (scanOf C s.nd s.v).2.2.1).1, cursor := (scanOf C s.nd s.v).1.daHeight },
+             v := (scanOf C s.nd s.v).2.1, before := s.nd.full.store,
+             ws := (feed C s.nd.full (scanOf C s.nd s.v).2.2.1).2,
+             hMarks := (marksOf C s.nd s.v).1 ++ s.hMarks, dMarks := (marksOf C s.nd s.v).2 ++ s.dMarks }
+  rw [f1] at hreach
+  rw [f3, f5, f6]
+  simp only [Store.getBlock, f4]
   simp only at hreach ⊢
+  show (feed C s.nd.full (scanOf C s.nd s.v).2.2.1).1.alive = true ∧
+    eraseS (feed C s.nd.full (scanOf C s.nd s.v).2.2.1).1.lastState
+      = stateAt C.sync ch (feed C s.nd.full (scanOf C s.nd s.v).2.2.1).1.store.height ∧
+    (∀ k, C.sync.initialHeight ≤ k → k ≤ (feed C s.nd.full (scanOf C s.nd s.v).2.2.1).1.store.height →
+      OnDA C ch s.v k ∧ ∃ b sb, ch k = some b ∧
+        (feed C s.nd.full (scanOf C s.nd s.v).2.2.1).1.store.getBlock k = some sb ∧ SameBlock b sb) ∧
+    ¬ OnDA C ch s.v ((feed C s.nd.full (scanOf C s.nd s.v).2.2.1).1.store.height + 1)
   generalize hE : (scanOf C s.nd s.v).2.2.1 = E at hs' ⊢
   generalize hF : feed C s.nd.full E = F at hs' ⊢
   obtain ⟨vp, _⟩ := scan_view C.sync.proposerAddr (scanFuel s.nd.cursor s.v.top) (rnodeOf s.nd) s.v [] []
@@ -181,7 +274,7 @@ theorem run_converges (g : GoodChain C.sync ch top) (dc : DistinctCommitments ch
     omega
   refine ⟨hinv.safe.alive, hinv.safe.st, ?_, ?_⟩
   · intro k h1 h2
-    exact ⟨(hs'.lowDA k h1 h2).mono hback, hinv.safe.chain k h1 h2⟩
+    exact ⟨(hs'.lowDA rfl k h1 h2).mono hback, hinv.safe.chain k h1 h2⟩
   · intro hon
     obtain ⟨blk, hb, ⟨p, hp, hpd, w, hc, hwk⟩, hdat⟩ := hon
     have hbelow := hi.view.below p hp
